@@ -75,9 +75,11 @@ __CPROVER_ensures(FRESH_HDR(__CPROVER_return_value) && __CPROVER_return_value->n
 /* factorisations: permutation lengths match, the rank is within both dimensions (certificate contract: property C03) */
 #define PLUQ_REQ(A, P, Q, cutoff) (SHP(A) && PSHP(P) && PSHP(Q) && (P)->length == (A)->nrows && (Q)->length == (A)->ncols && CUT_OK(cutoff))
 rci_t _mzd_pluq(mzd_t *A, mzp_t *P, mzp_t *Q, int const cutoff)
-__CPROVER_requires(PLUQ_REQ(A, P, Q, cutoff)) __CPROVER_assigns(vg_rank) __CPROVER_ensures(RANK_OK(__CPROVER_return_value, A) && vg_rank == __CPROVER_return_value);
+__CPROVER_requires(PLUQ_REQ(A, P, Q, cutoff)) __CPROVER_assigns(vg_rank, vg_live)
+__CPROVER_ensures(RANK_OK(__CPROVER_return_value, A) && vg_rank == __CPROVER_return_value && vg_live == __CPROVER_old(vg_live));
 rci_t mzd_pluq(mzd_t *A, mzp_t *P, mzp_t *Q, int const cutoff)
-__CPROVER_requires(PLUQ_REQ(A, P, Q, cutoff)) __CPROVER_assigns(vg_rank) __CPROVER_ensures(RANK_OK(__CPROVER_return_value, A) && vg_rank == __CPROVER_return_value);
+__CPROVER_requires(PLUQ_REQ(A, P, Q, cutoff)) __CPROVER_assigns(vg_rank, vg_live)
+__CPROVER_ensures(RANK_OK(__CPROVER_return_value, A) && vg_rank == __CPROVER_return_value && vg_live == __CPROVER_old(vg_live));
 #ifndef VP_GHOST_INDEX
 rci_t mzd_ple(mzd_t *A, mzp_t *P, mzp_t *Q, int const cutoff)
 __CPROVER_requires(PLUQ_REQ(A, P, Q, cutoff)) __CPROVER_assigns(vg_rank) __CPROVER_ensures(RANK_OK(__CPROVER_return_value, A) && vg_rank == __CPROVER_return_value);
